@@ -33,12 +33,16 @@ Definition rlibstr (r : read) : Z := snd r.
 Record cfg := mkCfg {
   req_untagged : bool;        (* --output-untagged given *)
   req_h : list bool;          (* per haplotype 1..ploidy: an output path was given *)
+  null_outs : list bool;      (* per output 0..ploidy: the given path is the null device (the records are
+                                 written and counted, but no file content can be observed) *)
   add_untagged : bool;
   only_largest : bool;
   discard : bool;             (* --discard-unknown-reads *)
   want_hist : bool }.         (* --read-lengths-histogram given *)
 Definition ploidy (c : cfg) : nat := length (req_h c).
 Definition req (c : cfg) : list bool := req_untagged c :: req_h c.     (* `outputs` of run_split *)
+(* output o is a file whose content can be read back *)
+Definition visible (c : cfg) (o : nat) : bool := nth o (req c) false && negb (nth o (null_outs c) false).
 
 Record hlist := mkList {
   has_header : bool;          (* first line starts with '#' *)
@@ -138,7 +142,9 @@ Definition check_list (rs : rules) (c : cfg) (l : hlist) : option err :=
   else None.
 
 (* ------------------------------------------------------------------- the single pass of run_split *)
-(* process_haplotype[h] *)
+(* process_haplotype[h]: an output path was given for class h (the null device counts as a path:
+   tests/test_run_split.py takes its histogram from /dev/null outputs), or h is untagged and
+   --add-untagged is on.  Reads of a class without path are skipped: not written, not counted. *)
 Definition processed (c : cfg) (h : Z) : bool :=
   nth (Z.to_nat h) (req c) false || ((h =? 0) && add_untagged c).
 
@@ -169,7 +175,7 @@ Definition out_reads (c : cfg) (evs : list (Z * read)) (o : nat) : list read :=
   map snd (filter (fun ev => goes_to c (fst ev) o) evs).
 
 Definition outputs (rs : rules) (c : cfg) (evs : list (Z * read)) : list (option (list Z)) :=
-  map (fun o => if nth o (req c) false then Some (map (written rs) (out_reads c evs o)) else None)
+  map (fun o => if visible c o then Some (map (written rs) (out_reads c evs o)) else None)
       (seq 0 (S (ploidy c))).
 
 (* histogram_data[h][length] *)
@@ -269,8 +275,8 @@ Fixpoint zlist_eqb (a b : list Z) : bool :=
 Definition routing_with (c : cfg) (es : list entry) (a : Z -> Z) (reads : list read)
            (outs : list (option (list Z))) : bool :=
   forallb (fun o => match nth o outs None with
-                    | Some l => nth o (req c) false && zlist_eqb l (exp_out c es a reads o)
-                    | None => negb (nth o (req c) false)
+                    | Some l => visible c o && zlist_eqb l (exp_out c es a reads o)
+                    | None => negb (visible c o)
                     end) (seq 0 (S (ploidy c))).
 
 Definition sumcol (rows : list (list Z)) (l : Z) (k : nat) : Z :=
@@ -310,7 +316,7 @@ Definition l1_hist (c : cfg) (l : hlist) (reads : list read) (outs : list (optio
 (* partition clause: with every output requested, no --add-untagged and no --discard-unknown-reads
    the outputs are pairwise disjoint, each is the input restricted to the records it contains
    (so: an order-preserving subsequence), and together they have as many records as the input *)
-Definition all_requested (c : cfg) : bool := forallb (fun b => b) (req c).
+Definition all_requested (c : cfg) : bool := forallb (visible c) (seq 0 (S (ploidy c))).
 Definition partition_applies (c : cfg) : bool :=
   all_requested c && negb (add_untagged c) && negb (discard c).
 Definition zmem (x : Z) (l : list Z) : bool := existsb (Z.eqb x) l.
